@@ -278,17 +278,48 @@ fn check(case: &Case, l: &mut Local) -> Verdict {
     Verdict::Pass { nontrivial: has_match && has_reject && has_empty }
 }
 
+fn gen_small(src: &mut Src, _t: Tier) -> Case {
+    let v = super::c01::small_slice(true);
+    v[(src.raw() as usize).min(v.len() - 1)].clone()
+}
+
+/// bounded-exhaustive: the small-pattern grammar of C01 with b spelled as e-acute, flags - and u, all haystacks
+/// over {a, e-acute, U+1F600} up to length 3, three forward / backward interleavings
+fn check_small(case: &Case, l: &mut Local) -> Verdict {
+    static HAYS: std::sync::OnceLock<Vec<String>> = std::sync::OnceLock::new();
+    let hays = HAYS.get_or_init(|| all_strings(&[0x61, 0xE9, 0x1F600], 3));
+    let pat = respell_b(&case.pat, 0xE9);
+    let mut nontrivial = false;
+    for fl in ["", "u"] {
+        for h in hays {
+            for (k, ops) in [vec![], vec![0u8, 1, 0, 1, 0, 1, 0, 1], vec![1u8, 1, 0, 1, 1, 0, 0, 0, 1]].iter().enumerate() {
+                let c = Case { pat: pat.clone(), hay: h.clone(), start: 0, flags: fl.to_string(), x: json!({"ops": ops, "n": k}), ..case.clone() };
+                match check(&c, l) {
+                    Verdict::Fail(m) => return Verdict::Fail(format!("/{}/{} on \"{}\" ops {:?}: {}", show(&pat), fl, h, ops, m)),
+                    Verdict::Pass { nontrivial: n } => nontrivial |= n,
+                    _ => {}
+                }
+            }
+        }
+    }
+    Verdict::Pass { nontrivial }
+}
+
+pub static VX: Variant = Variant { name: "exhaustive_small_patterns", choice_len: 1, gen: gen_small, check: check_small };
 pub static V: Variant = Variant { name: "searcher_contract", choice_len: 500, gen, check };
 
 pub fn variants() -> Vec<&'static Variant> {
-    vec![&V]
+    vec![&V, &VX]
 }
 
 pub fn run(ctx: &Ctx) -> i32 {
+    let slice = super::c01::small_slice(true);
+    let part: Vec<Case> = slice.iter().enumerate().filter(|(i, _)| ctx.tier == Tier::Thorough || i % 16 == 0).map(|(_, c)| c.clone()).collect();
+    ctx.run_list(&VX, &part);
     ctx.run_variant(&V, ctx.scale(300_000, 5_000_000));
     ctx.finish(
         "exploration",
-        "(nightly, regress feature `pattern`) random regexes that match empty everywhere / sometimes / never, at multi-byte characters, with adjacent matches x haystacks <= 10 (12) chars x generated interleavings of next()/next_back() (<= 40 ops). Forward stream until Done: steps adjacent, non-overlapping, from 0 to len, on char boundaries, Match steps == find_iter's ranges, Done sticky; reverse stream: the mirror image from len down to 0; interleaved use: every step in range and on boundaries, each direction's sub-stream adjacent, terminates within 4*len+8 calls. End to end: str::{find, contains, matches, match_indices, split, split_terminator, splitn, strip_prefix} with &re equal models computed from find_iter. Non-trivial = the stream has Match and Reject steps and an empty match.",
+        "(nightly, regress feature `pattern`) (bounded-exhaustive) the small-pattern grammar of C01 with b spelled as e-acute (a sixteenth of it in the quick tier), flags - and u, x all haystacks over {a, e-acute, U+1F600} up to length 3 x three forward/backward interleavings; random regexes that match empty everywhere / sometimes / never, at multi-byte characters, with adjacent matches x haystacks <= 10 (12) chars x generated interleavings of next()/next_back() (<= 40 ops). Forward stream until Done: steps adjacent, non-overlapping, from 0 to len, on char boundaries, Match steps == find_iter's ranges, Done sticky; reverse stream: the mirror image from len down to 0; interleaved use: every step in range and on boundaries, each direction's sub-stream adjacent, terminates within 4*len+8 calls. End to end: str::{find, contains, matches, match_indices, split, split_terminator, splitn, strip_prefix} with &re equal models computed from find_iter. Non-trivial = the stream has Match and Reject steps and an empty match.",
         &["find_iter is the reference for which ranges are matches (C01/C09)", "which matches the REVERSE searcher reports is not prescribed by the property (tiling only)", "fuel hook"],
     )
 }
